@@ -520,6 +520,7 @@ func vcModElems[T any](s []T) {}
 func vcModObj[T any](p *T) {}
 func vcModMap[K comparable, V any](m map[K]V) {}
 func vcLen[T any](s []T) int { return len(s) }
+func vcIf[T any](c bool, a, b T) T { if c { return a }; return b }
 func vcFirst[A, B any](a A, b B) A { return a }
 func vcSecond[A, B any](a A, b B) B { return b }
 func vcMapHas[K comparable, V any](m map[K]V, k K) bool { _, ok := m[k]; return ok }
